@@ -127,9 +127,13 @@ func (c *udtCodec) createInjector(dest interface{}, wasNull bool) (inj injector,
 			}
 		case reflect.Interface:
 			if !wasNull {
-				target := make(map[string]interface{}, len(c.fieldCodecs))
-				*dest.(*interface{}) = target
-				inj, err = newMapInjector(reflect.ValueOf(target))
+				target := reflect.ValueOf(make(map[string]interface{}, len(c.fieldCodecs)))
+				if !target.Type().AssignableTo(destValue.Type()) {
+					err = ErrDestinationTypeNotSupported
+				} else {
+					destValue.Set(target)
+					inj, err = newMapInjector(target)
+				}
 			}
 		default:
 			err = ErrDestinationTypeNotSupported
